@@ -23,7 +23,8 @@ package model
 //@     let n = len(s.samples)
 //@     let ts[i < n] = s.samples[i].TimestampMs
 //@     let tt = t
-//@     go: it := &seriesIt{samples: make([]Sample, $n), idx: -1}
+//@     let idx0 = s.idx
+//@     go: it := &seriesIt{samples: make([]Sample, $n), idx: $idx0}
 //@     go: for i, v := range []int64{$ts} { it.samples[i].TimestampMs = v }
 //@     go: got := it.Seek($tt)
 //@     go: want := -1
